@@ -277,10 +277,24 @@ class Flow:
         if isinstance(e, ast.Compare) and len(e.ops) == 1:
             # len(x) >= k / == k with k >= 1  =>  x non-empty on the true side
             l, r = e.left, e.comparators[0]
-            if (isinstance(l, ast.Call) and isinstance(l.func, ast.Name) and l.func.id == 'len'
-                    and len(l.args) == 1 and isinstance(l.args[0], ast.Name)
-                    and l.args[0].id in s.emp and isinstance(r, ast.Constant)
-                    and isinstance(r.value, int) and r.value >= 1
+            is_len_of_tracked = (isinstance(l, ast.Call) and isinstance(l.func, ast.Name) and l.func.id == 'len'
+                                 and len(l.args) == 1 and isinstance(l.args[0], ast.Name)
+                                 and l.args[0].id in s.emp and isinstance(r, ast.Constant)
+                                 and isinstance(r.value, int) and not isinstance(r.value, bool))
+            # len(x) >= 1 / > 0 / != 0 is "x is non-empty"; len(x) == 0 / < 1 / <= 0 is "x is empty"
+            if is_len_of_tracked:
+                op, k = type(e.ops[0]), r.value
+                nonempty = (op, k) in ((ast.GtE, 1), (ast.Gt, 0), (ast.NotEq, 0))
+                empty = (op, k) in ((ast.Eq, 0), (ast.Lt, 1), (ast.LtE, 0))
+                if nonempty or empty:
+                    n = l.args[0].id
+                    if s.emp[n] in ('N', 'E'):
+                        holds = (s.emp[n] == 'N') == nonempty
+                        return ([s], []) if holds else ([], [s])
+                    a, b = s.copy(), s.copy()
+                    a.emp[n], b.emp[n] = ('N', 'E') if nonempty else ('E', 'N')
+                    return [a], [b]
+            if (is_len_of_tracked and r.value >= 1
                     and isinstance(e.ops[0], (ast.GtE, ast.Eq, ast.Gt))):
                 n = l.args[0].id
                 if s.emp[n] == 'E':
@@ -467,6 +481,24 @@ class Flow:
                     for y in o['next'] | o['continue']:
                         work.append((y, True))
             return {'next': exits}
+        if isinstance(st, ast.For):
+            # a loop over a literal display of constants runs a known number of times (the generator uses
+            # `for _ in (0,)` style blocks as "run once, leave early with break"): unrolled
+            it = st.iter
+            if st.orelse or not (isinstance(it, (ast.Tuple, ast.List)) and len(it.elts) <= 4
+                                 and all(isinstance(e, ast.Constant) for e in it.elts)):
+                raise Unsupported('statement For in emitted skeleton')
+            cur, exits = {s}, set()
+            for e in it.elts:
+                nxt = set()
+                for x in cur:
+                    x = x.copy()
+                    self.store(st.target, e, self.val(e, x), x, st)
+                    o = self.block(st.body, {x})
+                    exits |= o['break']
+                    nxt |= o['next'] | o['continue']
+                cur = nxt
+            return {'next': exits | cur}
         if isinstance(st, ast.Break):
             return {'break': {s}}
         if isinstance(st, ast.Continue):
